@@ -253,3 +253,102 @@ Print Assumptions C20_round_value.
 Print Assumptions C20_round_dict_values.
 Print Assumptions C20_round_dict_values_no_rounding.
 Print Assumptions C20_compare_unhashable_lists.
+
+(* ======================================================================================================================= *)
+(* C20 additions -- "the sum-of-uniforms distributions are the true distributions of the sums": the Irwin-Hall closed form.
+   ihF n x = (1/n!) sum_{k=0..n} (-1)^k C(n,k) max(x-k,0)^n  is the closed form (Alg/IrwinHall.v);
+   ihVol n x = int_0^1 ... int_0^1 1[u_1+...+u_n <= x] du_n ... du_1  (iterated Riemann integral over the unit cube)
+   is P(U_1+...+U_n <= x) for independent U(0,1);  ihFg n lo hi is the affine rescaling for U(lo,hi). *)
+From SV Require Import Alg.Helpers.
+From SV Require Import Alg.IrwinHall Alg.IrwinHall_proofs Alg.IrwinHall_model_proofs.
+From Coq Require Import Reals Qreals Lia Lra.
+From Coquelicot Require Import Coquelicot.
+Local Open Scope R_scope.
+
+(* (a) n = 1: the closed form is the cdf of U(0,1) *)
+Theorem C20_irwin_hall_n1 (x : R) : ihF 1 x = Rmin (Rmax x 0) 1.
+Proof. exact (ihF_1 x). Qed.
+(* (b) the convolution recursion  F_{n+1}(x) = E[F_n(x - U)] = int_0^1 F_n(x-u) du,  every n >= 1, every real x;
+       [is_RInt]: the integral exists and has this value *)
+Theorem C20_irwin_hall_convolution (n : nat) (x : R) : (1 <= n)%nat ->
+  is_RInt (fun u => ihF n (x - u)) 0 1 (ihF (S n) x) /\ ihF (S n) x = RInt (fun u => ihF n (x - u)) 0 1.
+Proof. exact (fun Hn => conj (ihF_convolution_is_RInt n x Hn) (ihF_convolution n x Hn)). Qed.
+(* (c) (a)+(b) determine the family: any G with G_1 = cdf of U(0,1) and the recursion is the closed form *)
+Theorem C20_irwin_hall_characterised (G : nat -> R -> R) :
+  (forall x, G 1%nat x = Rmin (Rmax x 0) 1) ->
+  (forall n x, (1 <= n)%nat -> G (S n) x = RInt (fun u => G n (x - u)) 0 1) ->
+  forall n x, (1 <= n)%nat -> G n x = ihF n x.
+Proof. exact (ihF_characterised G). Qed.
+(* (d) the closed form IS the volume of {u in [0,1]^n : u_1+...+u_n <= x} (iterated integral of the indicator),
+       and each of the n nested integrals exists *)
+Theorem C20_irwin_hall_is_distribution_of_sum (n : nat) (x : R) : (1 <= n)%nat -> ihVol n x = ihF n x.
+Proof. exact (fun Hn => ihVol_is_ihF n Hn x). Qed.
+Theorem C20_irwin_hall_iterated_integral_exists (n : nat) (x : R) :
+  is_RInt (fun u => ihVol n (x - u)) 0 1 (ihVol (S n) x).
+Proof. exact (ihVol_integrable n x). Qed.
+(* (e) outside the support (the values the code returns before evaluating the sum), range, monotonicity *)
+Theorem C20_irwin_hall_outside_support (n : nat) (x : R) : (1 <= n)%nat ->
+  (x <= 0 -> ihF n x = 0) /\ (INR n <= x -> ihF n x = 1).
+Proof. exact (fun Hn => conj (ihF_below n x Hn) (ihF_above n Hn x)). Qed.
+Theorem C20_irwin_hall_is_cdf (n : nat) : (1 <= n)%nat ->
+  (forall x, 0 <= ihF n x <= 1) /\ (forall x y, x <= y -> ihF n x <= ihF n y).
+Proof. exact (fun Hn => conj (ihF_range n Hn) (ihF_mono n Hn)). Qed.
+(* (f) the executable model of helpers.irwin_hall_cdf (exact rationals) is the closed form at every rational x;
+       the code's sum k = 0..floor(x) alone already is (so the early returns 0 / 1 change nothing on exact arithmetic) *)
+Theorem C20_irwin_hall_cdf_is_closed_form (x : Q) (n : nat) : (1 <= n)%nat ->
+  Q2R (irwin_hall_cdf x n) = ihF n (Q2R x) /\ Q2R (ih_formula x n) = ihF n (Q2R x) /\ (irwin_hall_cdf x n == ih_formula x n)%Q.
+Proof. exact (fun Hn => conj (irwin_hall_cdf_real x n Hn) (conj (ih_formula_real x n Hn) (irwin_hall_clamp_redundant x n Hn))). Qed.
+Theorem C20_irwin_hall_cdf_convolution (x : Q) (n : nat) : (1 <= n)%nat ->
+  is_RInt (fun u => ihF n (Q2R x - u)) 0 1 (Q2R (irwin_hall_cdf x (S n))).
+Proof. exact (irwin_hall_cdf_model_convolution x n). Qed.
+(* (g) general U(lo,hi): sum_of_continuous_uniforms_distribution(n, lo, hi)._cdf is the rescaled closed form, which
+       satisfies  F_{n+1}(x) = int_lo^hi F_n(x - v) dv / (hi - lo)  and F_1 = cdf of U(lo,hi), 0 below n*lo, 1 above n*hi *)
+Theorem C20_scu_cdf_is_closed_form (n : nat) (lo hi x : Q) : (1 <= n)%nat -> (lo < hi)%Q ->
+  Q2R (scu_cdf n lo hi x) = ihFg n (Q2R lo) (Q2R hi) (Q2R x).
+Proof. exact (scu_cdf_real n lo hi x). Qed.
+Theorem C20_scu_convolution (n : nat) (lo hi x : R) : (1 <= n)%nat -> lo < hi ->
+  is_RInt (fun v => / (hi - lo) * ihFg n lo hi (x - v)) lo hi (ihFg (S n) lo hi x) /\
+  ihFg (S n) lo hi x = / (hi - lo) * RInt (fun v => ihFg n lo hi (x - v)) lo hi.
+Proof. exact (fun Hn Hlh => conj (ihFg_convolution_is_RInt n lo hi x Hn Hlh) (ihFg_convolution n lo hi x Hn Hlh)). Qed.
+Theorem C20_scu_n1_and_support (n : nat) (lo hi x : R) : (1 <= n)%nat -> lo < hi ->
+  ihFg 1 lo hi x = Rmin (Rmax ((x - lo) / (hi - lo)) 0) 1 /\
+  (x <= INR n * lo -> ihFg n lo hi x = 0) /\ (INR n * hi <= x -> ihFg n lo hi x = 1).
+Proof. exact (fun Hn Hlh => conj (ihFg_1 lo hi x Hlh) (conj (ihFg_below n lo hi x Hn Hlh) (ihFg_above n lo hi x Hn Hlh))). Qed.
+Theorem C20_scu_cdf_convolution (n : nat) (lo hi x : Q) : (1 <= n)%nat -> (lo < hi)%Q ->
+  is_RInt (fun v => / (Q2R hi - Q2R lo) * ihFg n (Q2R lo) (Q2R hi) (Q2R x - v)) (Q2R lo) (Q2R hi) (Q2R (scu_cdf (S n) lo hi x)).
+Proof. exact (scu_cdf_model_convolution n lo hi x). Qed.
+
+(* non-vacuity: concrete non-trivial instances (interior, non-integer points; values computed by the model over Q) *)
+Example C20_ex_irwin_hall_values :
+  ihF 2 (Q2R (3#2)) = Q2R (7#8) /\ ihF 3 (Q2R (5#4)) = Q2R (61#192) /\ ihFg 2 (Q2R 1) (Q2R 3) (Q2R 5) = Q2R (7#8).
+Proof.
+  rewrite <- !irwin_hall_cdf_real by lia. rewrite <- (scu_cdf_real 2 1 3 5) by (try lia; reflexivity).
+  repeat split; apply Qeq_eqR; vm_compute; reflexivity.
+Qed.
+Example C20_ex_irwin_hall_convolution :
+  is_RInt (fun u => ihF 2 (Q2R (5#4) - u)) 0 1 (Q2R (61#192)) /\ ihVol 3 (Q2R (5#4)) = Q2R (61#192).
+Proof.
+  destruct C20_ex_irwin_hall_values as (_ & H3 & _). rewrite <- H3. split.
+  - apply C20_irwin_hall_convolution. lia.
+  - apply C20_irwin_hall_is_distribution_of_sum. lia.
+Qed.
+Example C20_ex_scu_convolution :
+  is_RInt (fun v => / (Q2R 3 - Q2R 1) * ihFg 1 (Q2R 1) (Q2R 3) (Q2R 5 - v)) (Q2R 1) (Q2R 3) (Q2R (7#8)).
+Proof.
+  assert (E : Q2R (7#8) = Q2R (scu_cdf 2 1 3 5)) by (apply Qeq_eqR; vm_compute; reflexivity).
+  rewrite E. apply C20_scu_cdf_convolution; [lia | reflexivity].
+Qed.
+
+Print Assumptions C20_irwin_hall_n1.
+Print Assumptions C20_irwin_hall_convolution.
+Print Assumptions C20_irwin_hall_characterised.
+Print Assumptions C20_irwin_hall_is_distribution_of_sum.
+Print Assumptions C20_irwin_hall_iterated_integral_exists.
+Print Assumptions C20_irwin_hall_outside_support.
+Print Assumptions C20_irwin_hall_is_cdf.
+Print Assumptions C20_irwin_hall_cdf_is_closed_form.
+Print Assumptions C20_irwin_hall_cdf_convolution.
+Print Assumptions C20_scu_cdf_is_closed_form.
+Print Assumptions C20_scu_convolution.
+Print Assumptions C20_scu_n1_and_support.
+Print Assumptions C20_scu_cdf_convolution.
